@@ -146,5 +146,5 @@ class QTensorLinear(torch.autograd.Function):
 
 
 @register_qtensor_func([torch.nn.functional.linear])
-def linear(func, input, other, bias=None):
-    return QTensorLinear.apply(input, other, bias)
+def linear(func, input, weight, bias=None):
+    return QTensorLinear.apply(input, weight, bias)
